@@ -276,6 +276,16 @@ def run(ctx):
     for o in ctx.obligations:
         if o.rule == 'R10a':
             o.rule = 'R02a'
+    # the eval-mode collapse of every MPS sampler to the one-hot (shared with C10 R10c)
+    before = len(ctx.obligations)
+    c10.r10c(ctx)
+    keep = []
+    for o in ctx.obligations[before:]:
+        if 'SuperNet' in o.construct:
+            continue
+        o.rule = 'R02a'
+        keep.append(o)
+    ctx.obligations[before:] = keep
     r02b(ctx)
     r02c(ctx)
     r02d(ctx)
